@@ -590,6 +590,22 @@ def _fn_of_canon(fname, p, ctx, power=1):
     if fname == "exp":
         if c is not None and c == 0:
             return {_ONE_RAW: Fraction(1)}
+        # exp(a + q*log(c0)) = c0^q * exp(a) for a numeric constant c0 > 0 and integer q
+        scale = Fraction(1)
+        rest_p = {}
+        for (ff, nb), cc in p.items():
+            if nb == 0 and len(ff) == 1 and ff[0][0] == "F" and ff[0][1] == "log" and not ff[0][3] and ff[0][4] == 1 \
+                    and cc.denominator == 1:
+                form = ctx.forms[ff[0][2]]
+                if len(form) == 1 and not form[0][0] and form[0][1] == 0 and form[0][2] > 0:
+                    scale *= Fraction(form[0][2]) ** int(cc)
+                    continue
+            rest_p[(ff, nb)] = cc
+        if scale != 1:
+            inner = _fn_of_canon("exp", rest_p, ctx, 1)
+            sc = scale ** power
+            return {k2: v2 * sc for k2, v2 in inner.items()} if power == 1 else \
+                {k2: v2 * sc for k2, v2 in raw(powr(poly_to_expr_raw(inner), power), ctx).items()}
         sf = _single_factor(p)
         if sf is not None and sf[0] == "F" and sf[1] == "log" and sf[4] == 1:
             inner = form_to_expr(ctx.forms[sf[2]], dict(enumerate(sf[3])))
@@ -869,6 +885,9 @@ def simplify_mono(f, b, ctx):
             r = apply_inv_rel(f, b, ctx)
             if r is not None:
                 return r
+        r = _inv_atom_rule(f, b, ctx)
+        if r is not None:
+            return r
         # exp merging
         r = _merge_exp(f, b, ctx)
         if r is not None:
@@ -895,9 +914,11 @@ def simplify_mono(f, b, ctx):
             order.append(kk)
         merged[kk][1] += pw
     f2 = []
+    cancelled = False
     for kk in order:
         k, pw = merged[kk]
         if pw == 0 and k[0] != "D":
+            cancelled = True
             continue
         if k[0] == "A":
             if pw > 1 and k[1] in getattr(ctx, "idempotent", ()):
@@ -923,6 +944,13 @@ def simplify_mono(f, b, ctx):
             f2.append(("F", k[1], k[2], k[3], pw))
         else:
             f2.append(k)
+    if cancelled and f2:
+        # factors cancelled (x * x^-1): contractions that were blocked by them may now apply
+        r = simplify_mono(list(f2), set(b), ctx)
+        if r is None or isinstance(r, dict):
+            return r
+        f3, b3, c3 = r
+        return f3, b3, coef * c3
     # a bound variable may have lost all occurrences through power cancellation
     for v in list(b):
         if _occ(f2, v) == 0:
@@ -1077,6 +1105,70 @@ def _merge_exp(f, b, ctx):
     rest = [x for n, x in enumerate(f) if n not in idx]
     newp = _fnatom("exp", ("add", tuple(terms)), ctx, 1)
     return pmul({(tuple(rest), frozenset(b)): Fraction(1)}, newp)
+
+
+def _inv_atom_rule(f, b, ctx):
+    """oriented rule for a rational atom whose denominator depends on a bound index (it cannot be cleared):
+           inv(P) * lead(P)  ->  (1 - inv(P) * (P - lead(P))) / c_lead
+    applied when the monomial contains inv(P) together with the lead term of P (a single non-constant factor)."""
+    for n0, x in enumerate(f):
+        if x[0] != "F" or x[1] != "inv" or x[4] < 1:
+            continue
+        if all(_hole_free_of_bound(h, b) for h in x[3]):
+            continue            # free denominators are cleared globally instead
+        form = ctx.forms[x[2]]
+        hm = dict(enumerate(x[3]))
+        lead = None
+        for ti, (ff, nb, c) in enumerate(form):
+            if nb == 0 and len(ff) == 1 and ff[0][0] in ("F", "A") and ff[0][-1] == 1:
+                if lead is None or ff[0][0] == "F":
+                    lead = (ti, ff[0], c)
+        if lead is None:
+            continue
+        ti, lf, lc = lead
+
+        def inst(i):
+            if isinstance(i, tuple) and i and i[0] == "H":
+                return hm[i[1]]
+            if is_app(i):
+                return ("app", i[1], tuple(inst(a) for a in i[2]))
+            return i
+        if lf[0] == "F":
+            want = ("F", lf[1], lf[2], tuple(inst(i) for i in lf[3]))
+        else:
+            want = ("A", lf[1], tuple(inst(i) for i in lf[2]))
+        wk = _merge_key(want, ctx)
+        for n1, y in enumerate(f):
+            if n1 == n0 or y[0] != want[0]:
+                continue
+            yk = _merge_key(("F", y[1], y[2], y[3]) if y[0] == "F" else ("A", y[1], y[2]), ctx)
+            if yk != wk or y[-1] < 1:
+                continue
+            rest = []
+            for k2, z in enumerate(f):
+                if k2 == n0:
+                    if z[4] > 1:
+                        rest.append(z[:4] + (z[4] - 1,))
+                elif k2 == n1:
+                    if z[-1] > 1:
+                        rest.append(z[:-1] + (z[-1] - 1,))
+                else:
+                    rest.append(z)
+            base = {(tuple(rest), frozenset(b)): Fraction(1)}
+            out = {(tuple(rest), frozenset(b)): Fraction(1) / lc}
+            inv1 = ("F", "inv", x[2], x[3], 1)
+            for tj, (ff, nb, c) in enumerate(form):
+                if tj == ti:
+                    continue
+                term = _mono_to_expr(ff, c, hm)
+                add_p = pmul({(tuple(rest) + (inv1,), frozenset(b)): Fraction(-1) / lc}, raw(term, ctx))
+                out = padd(out, add_p)
+            return out
+    return None
+
+
+def _hole_free_of_bound(h, b):
+    return not any(v in b for v in ivs_in(h))
 
 
 def _find_inv(f, b, ctx):
